@@ -1,10 +1,69 @@
 import Driver.Loop
 import Driver.Codec
-open PyGql
+import PyGqlModel.ParseDoc
+import PyGqlModel.ParseJson
+import PyGqlModel.Spec.Grammar
+open PyGql PyGql.Parse PyGql.Ast
 
 namespace Driver.ParseOps
 
-/-- answer the request if its "op" belongs to this group (stub: to be filled by the owner) -/
-def handle? (_j : J) : Option J := none
+def flagsOfJson (j : J) : Flags :=
+  { noLocation := j.boolD "nl", allowTypeSystem := j.boolD "ts", experimentalFragmentVariables := j.boolD "fv" }
+
+def errToJson (e : SynErr) : J := .obj [("err", .obj [("pos", J.ofNat e.pos), ("msg", .str e.msg)])]
+
+/-- parse with the given entry point; `spec` = the specification evaluated on the model's own output
+    (WF ∧ the token list matches the tree's concrete-syntax view, spans included) -/
+def parseEntry (entry : String) (fl : Flags) (toks : List Tok) : Except SynErr (J × Bool) :=
+  match entry with
+  | "value" => (parseValue fl toks).map fun v => (v.toJson, Spec.checkValueTop fl v toks)
+  | "type" => (parseType fl toks).map fun t => (t.toJson, Spec.checkTypeTop fl t toks)
+  | _ => (parseDocument fl toks).map fun d => (d.toJson, Spec.checkDocumentTop fl d toks)
+
+def answer (entry : String) (fl : Flags) (toks : List Tok) (withSpec : Bool) : J :=
+  match parseEntry entry fl toks with
+  | .ok (j, spec) => .obj ([("ok", j)] ++ (if withSpec then [("spec", .bool spec)] else []))
+  | .error e => errToJson e
+
+/-- all strings of length `n` over the alphabet, in lexicographic order of indices (first position slowest) -/
+def strings (alpha : List Tok) : Nat → List (List Tok)
+  | 0 => [[]]
+  | n + 1 => alpha.flatMap fun a => (strings alpha n).map (a :: ·)
+
+/-- lay the tokens out as `lexeme␠lexeme␠…` (each alphabet token carries its own width) and add SOF/EOF -/
+def layout (ts : List Tok) : List Tok :=
+  let rec go (pos : Nat) : List Tok → List Tok × Nat
+    | [] => ([], pos)
+    | t :: rest =>
+      let w := t.stop - t.start
+      let (out, fin) := go (pos + w + 1) rest
+      ({ t with start := pos, stop := pos + w } :: out, if rest.isEmpty then pos + w else fin)
+  let (body, fin) := go 0 ts
+  let sof : Tok := { kind := .sof, start := 0, stop := 0, value := textOfString "<SOF>" }
+  let eof : Tok := { kind := .eof, start := fin, stop := fin, value := textOfString "<EOF>" }
+  sof :: body ++ [eof]
+
+def parseEnum (entry : String) (fl : Flags) (alpha : List Tok) (n : Nat) : J :=
+  let all := strings alpha n
+  let rec go (i : Nat) (acc : Array J) : List (List Tok) → Array J
+    | [] => acc
+    | ts :: rest =>
+      match parseEntry entry fl (layout ts) with
+      | .ok (j, _) => go (i + 1) (acc.push (.arr [J.ofNat i, j])) rest
+      | .error _ => go (i + 1) acc rest
+  .obj [("n", J.ofNat all.length), ("accepted", .arr (go 0 #[] all).toList)]
+
+/-- answer the request if its "op" belongs to this group -/
+def handle? (j : J) : Option J :=
+  match j.strD "op" with
+  | "parse" =>
+    match (j.arrD "toks").mapM tokOfJson with
+    | none => some (.obj [("error", .str "bad-token")])
+    | some toks => some (answer (j.strD "entry") (flagsOfJson j) toks (j.boolD "spec"))
+  | "parse_enum" =>
+    match (j.arrD "alphabet").mapM tokOfJson with
+    | none => some (.obj [("error", .str "bad-token")])
+    | some alpha => some (parseEnum (j.strD "entry") (flagsOfJson j) alpha (j.natD "len"))
+  | _ => none
 
 end Driver.ParseOps
